@@ -42,6 +42,10 @@ CLAIMED = {
    technique="bounded exhaustive enumeration of all participant sequences (three ordering classes x five Order values incl. MinInt/MaxInt) through the real sorting helper (length <=6) and through real starts as post-processors, runners and loaders (length <=3) under every registry iteration order",
    text="All 1.9M sequences of length <=6 over {PriorityOrdered(o), Ordered(o), unordered: o in {MinInt,-1,0,1,MaxInt}} go through the real SortOrderedComponents; all sequences of length <=3 are registered as user post-processors, application runners and configuration loaders and started for real under every permutation of the registry iteration order / loader-adding order. Oracle: output is a permutation (identity of elements), classes in order P<O<N, Order non-decreasing inside P and inside O, and the observed invocation log of the callbacks is such a sequence with every participant exactly once.",
    note="Trusted: harness participants' event log. Outside: more than 6 participants directly / 3 through a start (thorough 7 / 4); Order values other than the five."),
+ "C13": dict(engine=E1, design="§7 C13",
+   technique="bounded exhaustive enumeration of runner sets x failing runner x backgrounds x iteration orders on the real container; event-log oracle",
+   text="Every sequence of <=3 runners over {PriorityOrdered(o), Ordered(o), unordered: o in {MinInt,-1,0,1,MaxInt}} x {all eager, all lazy} x each choice of failing runner (or none) x three component backgrounds (chain, cycle, lazy dependency) x two iteration orders is started for real. Oracle: every runner exactly once, only after every needed component logged its initialisation, in ordering-contract sequence; with a failing runner Run returns an error, the invocation sequence ends with the failing runner, every strictly earlier-ranked runner ran and no strictly later-ranked one did.",
+   note="Trusted: harness runners' event log. Outside: >3 runners; equal-rank runners around a failure are unconstrained."),
  "C10": dict(engine=E1+" (+E2 scheduler for scan-phase schedules)", design="§7 C10",
    technique="differential bounded exhaustive exploration: each program under all permutations of iteration and registration order plus every single per-call order deviation on the real container; outcome signatures (tied points masked) must coincide",
    text="C08 families under all provider permutations (registration order follows), holders that are candidates for their own field with <=2 other candidates under all permutations of (providers, holder), all 2-node graphs with self loops and 3-node graphs under all 6x6 (iteration, registration) orders, and 2-provider programs under every single non-default answer of every registry enumeration: the signature (success, per-point target, sorted slice contents, ties masked) must be identical across all executions of one program.",
